@@ -3,6 +3,7 @@ import Scion.Proofs.Net
 import Scion.Proofs.NetEdge
 import Scion.Proofs.NetMirror
 import Scion.Proofs.NetPeerEdge
+import Scion.Proofs.NetMulti7
 /-!
 # C03 — Reversed paths carry replies back to the source
 
@@ -128,7 +129,27 @@ theorem C03_single_router_partial (mac : MacFn) (net : Net) (now : Nat) (edges :
   · exact reverse_run_peering_partial mac net now hWF hUp hSR e1 e2 src dst c cf tr k1 k2 h1 h2 hJ hp hexp
       hsend
 
-/-- still open (stated by `C03_full`, tied by the engine): several border routers per AS -/
-def remaining : Prop := C03_full
+/-- **C03 at full strength is a theorem**: any number of border routers per AS, all path shapes.
+    The way there and the way back are delivered in the network with one router per AS
+    (`C03_single_router_partial` on `collapse net`, whose hypotheses follow from those on `net`);
+    both deliveries transfer to `net` with the same traces and final packets
+    (`send_sim`: every AS crossing by one router is reproduced by the ingress router and, where
+    another router owns the egress interface, its sibling); the delivered packet, reversed, is
+    again a packet on its first hop with uniform Peer flags (`reverse_delivered`). -/
+theorem C03_holds : C03_full := by
+  intro mac net now edges src dst c cf tr hWF hUp hJ hp hexp hsend
+  have hWF0 := wf_collapse net hWF
+  have hUp0 := allUp_collapse net hUp
+  have hSR0 := singleRouter_collapse net
+  have hJ0 := joinable_collapse mac net edges src dst hJ
+  obtain ⟨hU, hfirst⟩ := pathOf_uniform mac net edges src dst c hJ hp
+  obtain ⟨cf0, h0⟩ := Scion.Net.C02_single_router mac (collapse net) now edges src dst c hWF0 hUp0 hSR0 hJ0 hp hexp
+  have hreal := send_sim mac net now src dst hWF c hU hfirst dst _ cf0 h0
+  rw [hreal] at hsend
+  cases hsend
+  obtain ⟨cr, hr⟩ := C03_single_router_partial mac (collapse net) now edges src dst c cf _ hWF0 hUp0 hSR0
+    hJ0 hp hexp h0
+  obtain ⟨hUr, hfr⟩ := reverse_delivered mac (collapse net) now src dst c cf dst _ hU h0
+  exact ⟨cr, send_sim mac net now dst src hWF (reverseCursor cf) hUr hfr src _ cr hr⟩
 
 end Scion.C03
